@@ -66,6 +66,14 @@ def huge_reuse_jobs(rng, n):
                                  "--huge", "75", "--cc", "4"]) for i in range(n)]
 
 
+def huge_pair_jobs(rng, n):
+    """Three neighbouring extents of 257..336 blocks; the first two are deleted (acknowledged), then a large record is
+    written into the merged free run; close, reopen."""
+    return [("hugepair%d" % i, ["--seed", str(rng.randrange(1 << 30)), "--steps", "18", "--fmt", str([3, 2, 1][i % 3]), "--blocks", "1500",
+                                "--cpus", "2", "--keys", "3", "--ttl", "0", "--end", "drop", "--flushpct", "30", "--maximages", "40",
+                                "--huge", "100", "--hugepair", "1", "--edges", "0", "--cc", "4"]) for i in range(n)]
+
+
 def block_boundary_batch_jobs(rng, n):
     """Batches whose allocation-journal image ends exactly on a block boundary (40 + 8 * 507 = 4096, 40 + 8 * 1019 =
     8192) and their neighbours: image length and checksum coverage of the journal at the rounding edge."""
